@@ -24,6 +24,46 @@ func ruleC03(p *Program, r *Run) {
 		r.Fail("C03/kinds", fn+" case *parser.JoinOperator", p.Pos(sq.Pos()), "no case for join operators")
 		return
 	}
+	// the code that handles a join: the case clause and the bodies of the helpers it was split into (functions
+	// called from it, transitively, that are not among the functions recorded for the reviewed tree)
+	regions := []ast.Node{joinCase}
+	regionFn := map[*ast.FuncDecl]bool{sq: true}
+	recorded := map[string]bool{}
+	for _, a := range anchorPrints {
+		recorded[a.Pkg+"|"+a.Recv+"|"+a.Name] = true
+	}
+	for i := 0; i < len(regions) && i < 8; i++ {
+		ast.Inspect(regions[i], func(n ast.Node) bool {
+			call, ok := n.(*ast.CallExpr)
+			if !ok {
+				return true
+			}
+			f := Callee(info, call)
+			decl, dpkg := p.DeclOf(f)
+			if decl == nil || dpkg != pkg || regionFn[decl] {
+				return true
+			}
+			if recorded[pkg.PkgPath+"|"+recvName(f)+"|"+fnName(f)] {
+				return true
+			}
+			regionFn[decl] = true
+			regions = append(regions, decl.Body)
+			return true
+		})
+	}
+	inspectRegion := func(f func(ast.Node) bool) {
+		for _, root := range regions {
+			ast.Inspect(root, f)
+		}
+	}
+	inRegion := func(n ast.Node) bool {
+		for _, root := range regions {
+			if n.Pos() >= root.Pos() && n.End() <= root.End() {
+				return true
+			}
+		}
+		return false
+	}
 
 	// ---- kinds: parser table
 	jt := p.PkgVarValue(p.Parser, "joinTypes").(*ast.CompositeLit)
@@ -53,7 +93,7 @@ func ruleC03(p *Program, r *Run) {
 	// the flavor variable: the local string of the join case that takes the operator's kind= name (X.Flavor.Name)
 	var flavor types.Object
 	var flavorSw ast.Node = joinCase
-	ast.Inspect(joinCase, func(n ast.Node) bool {
+	inspectRegion(func(n ast.Node) bool {
 		as, ok := n.(*ast.AssignStmt)
 		if !ok || len(as.Lhs) != 1 || len(as.Rhs) != 1 || flavor != nil {
 			return true
@@ -79,7 +119,7 @@ func ruleC03(p *Program, r *Run) {
 	fk := p.ObjKey(flavor)
 	// default kind: the constant the variable is declared with
 	defKind := ""
-	ast.Inspect(joinCase, func(n ast.Node) bool {
+	inspectRegion(func(n ast.Node) bool {
 		switch v := n.(type) {
 		case *ast.AssignStmt:
 			if len(v.Lhs) == 1 && objOf(info, v.Lhs[0]) == flavor && v.Tok == token.DEFINE {
@@ -112,7 +152,7 @@ func ruleC03(p *Program, r *Run) {
 	leftDepthOK := true
 	leftDepthWhy := ""
 	for _, o := range g.occs {
-		if o.Ev.Func != sq {
+		if !regionFn[o.Ev.Func] {
 			continue
 		}
 		switch o.Ev.Kind {
@@ -164,7 +204,7 @@ func ruleC03(p *Program, r *Run) {
 	var leftDef, recCall, rightDef ast.Node
 	var leftVar types.Object
 	self := FuncObj(pkg, sq)
-	ast.Inspect(joinCase, func(n ast.Node) bool {
+	inspectRegion(func(n ast.Node) bool {
 		as, ok := n.(*ast.AssignStmt)
 		if !ok || len(as.Rhs) != 1 {
 			return true
@@ -195,7 +235,7 @@ func ruleC03(p *Program, r *Run) {
 	okLeft := leftDef != nil && recCall != nil && leftDef.Pos() < recCall.Pos()
 	if okLeft {
 		// never reassigned
-		ast.Inspect(joinCase, func(n ast.Node) bool {
+		inspectRegion(func(n ast.Node) bool {
 			if as, ok := n.(*ast.AssignStmt); ok && as != leftDef {
 				for _, l := range as.Lhs {
 					if objOf(info, l) == leftVar {
@@ -221,10 +261,10 @@ func ruleC03(p *Program, r *Run) {
 	// which names are written on each side
 	var leftQ, rightQ string
 	for _, ev := range g.events {
-		if ev.Func != sq || ev.Kind != "Q" || ev.Frame != "" || constOf(info, ev.Arg) != nil {
+		if !regionFn[ev.Func] || ev.Kind != "Q" || ev.Frame != "" || constOf(info, ev.Arg) != nil {
 			continue // only names taken from subqueries (not the constant aliases, not writes of helpers)
 		}
-		if ev.Call.Pos() > joinCase.Pos() && ev.Call.End() < joinCase.End() {
+		if inRegion(ev.Call) {
 			if leftQ == "" {
 				leftQ = exprStr(ev.Arg)
 			} else {
@@ -259,7 +299,7 @@ func ruleC03(p *Program, r *Run) {
 			return false, false
 		}
 		for _, o := range g.occs {
-			if o.Ev.Func != sq || o.Ev.Root.Pos() < joinCase.Pos() || o.Ev.Root.End() > joinCase.End() {
+			if !regionFn[o.Ev.Func] || !inRegion(o.Ev.Root) {
 				continue
 			}
 			switch {
@@ -322,7 +362,7 @@ func ruleC03(p *Program, r *Run) {
 	r.Check(bare > 0 && okGate, "C03/gate", "pql.writeExpression plain `=` in a join condition", p.Pos(we.Pos()), "the coalesce-free equality is written only when one operand mentions $left and one mentions $right (path facts on both hasJoinTerms results)", "a plain `=` (without the NULL-safe wrapper) can be written for a comparison that is not between the left and the right side")
 	// the ON hole uses a context in join mode
 	onOK := false
-	ast.Inspect(joinCase, func(n ast.Node) bool {
+	inspectRegion(func(n ast.Node) bool {
 		call, ok := n.(*ast.CallExpr)
 		if !ok || len(call.Args) != 3 {
 			return true
@@ -331,7 +371,7 @@ func ruleC03(p *Program, r *Run) {
 			return true
 		}
 		ctxObj := objOf(info, call.Args[0])
-		ast.Inspect(joinCase, func(m ast.Node) bool {
+		inspectRegion(func(m ast.Node) bool {
 			if as, ok := m.(*ast.AssignStmt); ok && len(as.Lhs) == 1 && objOf(info, as.Lhs[0]) == ctxObj {
 				if lit := litOf(as.Rhs[0]); lit != nil {
 					if md := litField(info, lit, "mode"); md != nil && constName(info, md) == "joinExprMode" {
@@ -511,11 +551,28 @@ func (c *rewriteClient) Return(e *Engine, st *State, ret *ast.ReturnStmt) {
 		notBuiltin = f.HasEq && f.Eq == `""`
 		builtin = hasStr(f.Ne, `""`)
 	}
+	// the table may be a switch: then the name is known to be (or to differ from all of) true / false / null
+	if f := get(idk + ".Parts[0].Name"); f != nil {
+		if f.HasEq && (f.Eq == `"true"` || f.Eq == `"false"` || f.Eq == `"null"`) {
+			builtin = true
+		}
+		if hasStr(f.Ne, `"true"`) && hasStr(f.Ne, `"false"`) && hasStr(f.Ne, `"null"`) {
+			notBuiltin = true
+		}
+	}
 	key := fmt.Sprintf("%s return #%d", c.fn, returnOrdinal(e.Func, ret))
 	res := e.ResolveExpr(ret.Results[0])
 	if objOf(info, res) == c.param {
 		c.unchanged++
-		ok := notQI || notOne || quoted || builtin
+		// a nil identifier node, or a nil only part, is not a bare column name either
+		nilID := false
+		if f := get(idk); f != nil && f.Nil == 1 {
+			nilID = true
+		}
+		if f := get(idk + ".Parts[0]"); f != nil && f.Nil == 1 {
+			nilID = true
+		}
+		ok := notQI || nilID || notOne || quoted || builtin
 		e.Site("C03/rewrite", key, ret, ok, "the condition is returned unchanged and is known not to be a bare column name here")
 		if !ok {
 			e.Site("C03/rewrite", key, ret, false, "the condition is returned unchanged on a path where it may be an unquoted, unqualified, non-constant identifier: `on k` would not mean $left.k == $right.k")
@@ -562,7 +619,9 @@ func (c *rewriteClient) Return(e *Engine, st *State, ret *ast.ReturnStmt) {
 			return false
 		}
 		if q := litField(info, first, "Quoted"); q != nil {
-			return false
+			if v := constOf(info, q); v == nil || v.String() != "false" {
+				return false
+			}
 		}
 		// the second part is the argument's own single part
 		k := e.CanonSt(st, c.p.Resolve(pl.Elts[1]))
